@@ -20,6 +20,7 @@ private:
     Goldilocks::Element *r;
     Goldilocks::Element *r_;
     int extension;
+    u_int64_t rSize = 0; // size N the cached tables r, r_ were computed for
 
     static u_int32_t log2(u_int64_t size)
     {
@@ -155,6 +156,7 @@ public:
         u_int64_t domainPow = log2(N);
         r = new Goldilocks::Element[N];
         r_ = new Goldilocks::Element[N];
+        rSize = N;
         r[0] = Goldilocks::one();
         r_[0] = powTwoInv[domainPow];
         for (int i = 1; i < N; i++)
